@@ -448,7 +448,7 @@ func writeAll(c reporter, cs *Case, caseKey string) *caseResult {
 	}
 
 	// determinism across batching: write everything again as one shuffled batch
-	if len(cs.Spec.Reshards) == 0 {
+	if len(cs.Spec.Reshards) == 0 && cs.Spec.DurChangeAfter == 0 {
 		store.got = map[int64][]stored{}
 		store.refused = map[int64]bool{}
 		all := make([]int, 0, len(cs.Points))
@@ -838,12 +838,27 @@ func genCase(r *rand.Rand, policy string, nPoints, nQueries int) *Case {
 		}
 		return d / int64(dur)
 	}
+	// one hash-sharded catalogue in three changes its shard group duration after the first or
+	// second batch (range bounds belong to a group, so not there): the last time slot is written
+	// from the first batch on (a short group that ends late exists), the earlier slots only after
+	// the change (they get long groups that start earlier and end later than the short one)
+	if typ == "hash" && r.IntN(3) == 0 {
+		s.DurChangeAfter = 1 + r.IntN(2)
+		s.DurFactor = []int{4, 6, 24}[r.IntN(3)]
+	}
 	cs.Batches = [][]int{nil, nil, nil}
 	for _, i := range r.Perm(nPoints) {
 		sl := slotOf(int64(cs.Points[i].T))
 		fb, ok := firstBatch[sl]
 		if !ok {
 			fb = r.IntN(3)
+			if s.DurChangeAfter > 0 {
+				if sl >= int64(nSlots-1) {
+					fb = 0
+				} else {
+					fb = s.DurChangeAfter + r.IntN(3-s.DurChangeAfter)
+				}
+			}
 			firstBatch[sl] = fb
 		}
 		b := fb + r.IntN(3-fb)
@@ -976,6 +991,9 @@ func runCase(c reporter, cs *Case, caseKey string) int {
 	c.Distinct("ha-policy", s.HaPolicy)
 	c.Distinct("partitions", fmt.Sprint(s.Nodes*s.PtPerNode))
 	c.Distinct("group-duration", time.Duration(s.GroupDurNs).String())
+	if s.DurChangeAfter > 0 {
+		c.Distinct("shard-duration-change", fmt.Sprintf("x%d-after-batch-%d", s.DurFactor, s.DurChangeAfter))
+	}
 	c.Distinct("offline-partitions", fmt.Sprint(len(s.OfflinePts)))
 	c.Distinct("catalogue-via-marshal-roundtrip", fmt.Sprint(s.RoundTrip))
 	c.Distinct("shard-groups-per-catalogue", fmt.Sprint(len(res.groups)))
